@@ -67,21 +67,43 @@ def _worker_init(pid, tier, seed, mir, active_regions, timeout_ms):
     _W["spec"] = importlib.import_module("specs." + pid)
 
 
+class CaseBudget(BaseException):
+    pass
+
+
 def _worker_run(case):
     ctx = _W["ctx"]
     spec = _W["spec"]
     t0 = time.time()
+    import signal
+    budget = int(os.environ.get("VERIF_CASE_BUDGET", "5400" if ctx.tier == "thorough" else "600"))
+
+    def _over(signum, frame):
+        raise CaseBudget("case exceeded its wall-clock budget of %d s (VERIF_CASE_BUDGET)" % budget)
+    old = signal.signal(signal.SIGALRM, _over)
+    signal.alarm(budget)
+    from specs import common as _C
+    _C.Res.current = None
     try:
         from mir2smt import terms as _T
         _T._fresh[0] = 0          # deterministic symbol names per case
         r = spec.run_case(ctx, case)
-    except Exception as e:
+    except (Exception, CaseBudget) as e:
         from mir2smt.exec import Unsupported
         from mir2smt.mirparse import MirSyntax
-        kind = "unsupported" if isinstance(e, (Unsupported, MirSyntax)) else "error"
-        r = {"case": case.get("id", str(case)), "vcs": 0, "discharged": 0, "violations": [],
-             "inconclusive": ["%s: %s: %s" % (kind, type(e).__name__, str(e)[:500])],
-             "trace": traceback.format_exc()[-2000:]}
+        kind = "unsupported" if isinstance(e, (Unsupported, MirSyntax)) else ("budget" if isinstance(e, CaseBudget) else "error")
+        msg = "%s: %s: %s" % (kind, type(e).__name__, str(e)[:500])
+        cur = _C.Res.current
+        if cur is not None and cur.d.get("case") == case.get("id"):
+            # keep what the case had established before it stopped (counterexamples found so far are still replayed)
+            r = cur.done()
+            r["inconclusive"].append(msg)
+        else:
+            r = {"case": case.get("id", str(case)), "vcs": 0, "discharged": 0, "violations": [], "inconclusive": [msg]}
+        r["trace"] = traceback.format_exc()[-2000:]
+    finally:
+        signal.alarm(0)
+        signal.signal(signal.SIGALRM, old)
     r.setdefault("case", case.get("id", str(case)))
     r["wall"] = time.time() - t0
     return r
@@ -206,7 +228,15 @@ def run_check(pid, tier, seed, jobs=16, only=None):
         pass
     # ---- replay counterexamples natively ----
     confirmed = []
-    for v in violations[:200]:
+    # fair order: the first 3 counterexamples of every case before the rest (a flood from one case must not starve the others)
+    per_case = {}
+    head, tail = [], []
+    for v in violations:
+        k = per_case.get(v.get("case"), 0)
+        per_case[v.get("case")] = k + 1
+        (head if k < 3 else tail).append(v)
+    violations = head + tail
+    for v in violations[:300]:
         try:
             rp = spec.replay(ctx, native, v)
         except Exception as e:
@@ -308,6 +338,12 @@ def write_evidence(path, pid, tier, seed, spec, results, confirmed, inconclusive
             "builtin_models": sorted(models),
             "solver": "z3 %s (python API), Int theory with explicit machine semantics" % _z3ver(),
             "solver_time_s": round(solver_t, 2),
+            "second_solver": {"rule": "a deterministic 1-in-N sample (crc32 of the VC name; N = 60 quick / 12 thorough, VERIF_CROSS overrides) of the VCs "
+                                      "decided unsat by z3 %s is dumped as SMT-LIB2 and re-decided by cvc5 and /usr/bin/z3 4.8 (4 s cap each); "
+                                      "a 'sat' answer makes the check inconclusive; unknown / timeout / (error lines prove nothing and are only counted" % _z3ver(),
+                              "sampled": int(stats.get("cross_sampled", 0)),
+                              "cvc5": {k[len("cross_cvc5_"):]: int(v) for k, v in stats.items() if k.startswith("cross_cvc5_")},
+                              "z3_4_8": {k[len("cross_z3old_"):]: int(v) for k, v in stats.items() if k.startswith("cross_z3old_")}},
             "bounds": meta.get("bounds", ""),
             "outside_claim": meta.get("outside_claim", []),
             "known_findings": known_lines,
